@@ -82,19 +82,27 @@ namespace lang
             v.data_ = std::make_unique<value_type[]>(v.capacity_);
         }
 
-        constexpr fixed_vector operator=(const fixed_vector& v)
+        constexpr fixed_vector& operator=(const fixed_vector& v)
         {
-            return fixed_vector(v);
+            fixed_vector tmp(v);
+            swap(tmp);
+
+            return *this;
         }
 
-        constexpr fixed_vector operator=(fixed_vector&& v)
+        constexpr fixed_vector& operator=(fixed_vector&& v)
         {
-            return fixed_vector(std::move(v));
+            swap(v);
+
+            return *this;
         }
 
-        constexpr fixed_vector operator=(const std::initializer_list<value_type>& l)
+        constexpr fixed_vector& operator=(const std::initializer_list<value_type>& l)
         {
-            return fixed_vector(l.size(), l);
+            fixed_vector tmp(l.size(), l);
+            swap(tmp);
+
+            return *this;
         }
 
         ~fixed_vector() = default;
@@ -361,6 +369,13 @@ namespace lang
         }
 
     private:
+        void swap(fixed_vector& other) noexcept
+        {
+            std::swap(size_, other.size_);
+            std::swap(capacity_, other.capacity_);
+            std::swap(data_, other.data_);
+        }
+
         size_type size_ = 0;
         size_type capacity_ = 0;
 
